@@ -868,3 +868,17 @@ def run(ctx):
     _run_main3(ctx)
     extras3(ctx)
     ctx.flush()
+
+
+
+# ---- round 8: an array-level function called on a signal object returns what it returns for any other object holding the same record -----------
+# (seed C05-r8-1: the result depended on which transform length the object had used for its OWN spectrum before)
+_run_main_fc5 = run
+
+
+def run(ctx):
+    _run_main_fc5(ctx)
+    import c06
+    c06._x4_foreign_cache(ctx, clause='C05.d an array-level function returns the same result when called again on an object holding the same record '
+                                       '(fresh object vs an object that generated its own spectrum with another transform length; bit for bit)')
+    ctx.flush()
